@@ -400,7 +400,14 @@ def _pair_job(arg):
             return a if ml != ml else np.where(np.isnan(a), ml, a)
 
         use_w = cfg["weights"] and not ones_as_none
-        calls.append({"X": X.tolist(), "y": sent(y).tolist(), "sample_weight": w.tolist() if use_w else None})
+        if use_w and (tabseed + 3 * k + len(D)) % 4 == 0:
+            # "sample weights of unlabeled samples are irrelevant": one quarter of the fits carry a non-finite
+            # weight (NaN / inf) at every missing label
+            w = np.array(w, dtype=float)
+            w[np.isnan(np.asarray(y, dtype=float))] = (np.nan, np.inf)[(tabseed + k) % 2]
+        calls.append({"X": X.tolist(), "y": sent(y).tolist(),
+                      "sample_weight": [["nan" if v != v else ("inf" if v == np.inf else v) for v in np.atleast_1d(r)]
+                                        for r in w.tolist()] if use_w else None})
         if prelude and k == 0:
             # the user's arrays live through a pool loop: the labels of D were revealed one after the other
             # (in a seeded order) and a throw-away model was fitted at every stage on the SAME X / w arrays;
